@@ -31,7 +31,7 @@ ASSUMPTIONS = [
     "the truthfulness clause is only checked under the statement's trigger (index created or changed in memory, or file STOP disagreeing with the data)",
 ]
 REQUIRED = ["frame_condition_evaluations", "double_write_comparisons", "truthfulness_checks", "cases_refresh_triggered",
-            "cases_refresh_not_triggered", "cases_with_empty_values_and_units", "cases_with_digit_named_curves", "constructed_by_read_case_upper", "constructed_by_read_case_lower", "constructed_by_read_case_preserve"]
+            "cases_refresh_not_triggered", "cases_with_empty_values_and_units", "cases_with_digit_named_curves", "cases_with_padded_text_values_in_memory", "constructed_by_read_case_upper", "constructed_by_read_case_lower", "constructed_by_read_case_preserve"]
 SOFT_DEADLINE = {"quick": 90, "thorough": 1200}
 LEVEL_TEXT = ("Exploration with a full before/after frame condition on every write() call (icontract snapshot/ensure on the "
               "real method), byte comparison of consecutive outputs and an independent tokeniser for STRT/STOP/STEP.")
@@ -150,6 +150,10 @@ def base_spec(rng, shape):
         spec["well"].append(["EMPW", "u", "", "empty with unit"])
     if rng.random() < 0.4:
         spec["params"].append(["EMPN", "", "", "empty without unit"])
+    if rng.random() < 0.35:
+        # in-memory text values with surrounding or only blanks, with and without a unit (a reader never produces them, an editor does)
+        spec["params"].append(["PADV", rng.choice(["M", "", "ohm.m"]), rng.choice([" approx 12", "12 approx ", "  two  words  ", " ", "   "]), "padded value"])
+        spec["well"].append(["PADW", rng.choice(["M", ""]), rng.choice([" KB ", "  ", " 7 "]), " padded descr "])
     return spec
 
 
@@ -315,6 +319,8 @@ def run_case(case, ctx):
         empties = [it for s in ("well", "params") for it in spec[s] if it[2] in ("", None) and it[1]]
         if empties:
             ctx.count("cases_with_empty_values_and_units")
+        if any(isinstance(it[2], str) and it[2] != it[2].strip() for s in ("well", "params") for it in spec[s]) and case["constr"] == "scratch":
+            ctx.count("cases_with_padded_text_values_in_memory")
         sig = [case["constr"], case["edit"], case["shape"], case.get("read_case"), bool(case.get("digitnames")), sorted(case["opts"].items(), key=str),
                len(spec["curves"]), bool(empties), len(spec["well"]), len(spec["params"])]
         nontrivial = len(spec["curves"]) >= 2 and (len(spec["well"]) + len(spec["params"])) >= 1
